@@ -66,6 +66,16 @@ class Zone:
         z.dirty = self.dirty
         return z
 
+    def __eq__(self, o) -> bool:
+        if not isinstance(o, Zone):
+            return NotImplemented
+        self.close()
+        o.close()
+        return (self.bottom == o.bottom and self.m == o.m and self.ints == o.ints
+                and self.facts == o.facts and self.defs == o.defs and self.aux == o.aux)
+
+    __hash__ = None
+
     def vars(self) -> set[str]:
         v = {ZERO}
         for a, b in self.m:
@@ -322,6 +332,7 @@ class ZoneDomain(Domain):
                 return AVal.top(isint)
             return AVal(None, min(cands), max(cands), isint)
         if isinstance(e.op, ast.FloorDiv):
+            isint = True                      # a floor quotient is integral whatever the operand types
             if blo == bhi and blo > 0 and blo != INF:
                 return AVal(None, math.floor(alo / blo) if alo > -INF else -INF,
                             math.floor(ahi / blo) if ahi < INF else INF, isint)
